@@ -256,7 +256,7 @@ CELLS = []
 for _n in (1, 2, 3, 4):
     CELLS.append(Cell(f'K1.repr_str_multiline[len={_n}]', _mk_repr(_n), 'K', FN8,
                       f'string of {_n} symbolic characters over the 10-character alphabet that drives quoting/escaping decisions (", \', backslash, newline, tab, NUL, U+2028, a, é, U+1F600)',
-                      tier='quick' if _n <= 3 else 'thorough', budget=900, stubs=['str.encode("unicode_escape") is C: the escaped character is realised on that path (finite alphabet)'],
+                      tier='quick' if _n <= 2 else 'thorough', budget=1800, stubs=['str.encode("unicode_escape") is C: the escaped character is realised on that path (finite alphabet)'],
                       out='strings longer than 4; characters outside the alphabet (they take the same branches as one of its members)'))
 CELLS.append(tletter.letter_cell('T1', 'put_line_comment', 'x = 1  # old ¡\ny = "¤"\n', _s_put_comment, queries=_q_comments, tier='quick', extra='¢£',
                                  pre=lambda xs: not chr(xs[2]).isspace()))   # documented: the comment text is returned stripped of trailing whitespace (U+3000 counts)
